@@ -392,3 +392,66 @@ def user_hooks():
     t.append(T('hooks_extension_branches', [FRESH(['x', 'b1', 'b2'], EQ(q, L(x, b1, b2)), OP('conde', EQ(x, P(0)), EQ(x, P(1))), pr(b1), EQ(x, P(0)), pr(b2))], 'multiset', **U))
     t.append(T('hooks_fd_cascade', [FRESH(['x', 'y', 'z', 'b1', 'b2'], EQ(q, L(b1, b2)), INFD(L(x, y, z), [1, 2]), REL('diseqfd', x, y), REL('diseqfd', x, z), pr(b1), EQ(x, N(1)), pr(b2))], 'multiset', **U))
     return t
+
+
+def clpz_programs():
+    t = []
+    t.append(T('z_plus_diseq', [NE(q, P(0)), REL('plusz', P(1), q, P(2))], 'multiset'))
+    t.append(T('z_plus_diseq_after', [REL('plusz', P(1), q, P(2)), NE(q, P(0))], 'multiset'))
+    t.append(T('z_times_diseq', [FRESH(['x'], EQ(q, x), NE(x, P(0)), REL('timesz', P(1), x, P(2)))], 'multiset'))
+    t.append(T('z_chain', [FRESH(['x', 'y'], EQ(q, L(x, y)), REL('plusz', x, P(0), y), REL('timesz', P(1), x, P(2)), NE(y, P(0)))], 'multiset'))
+    t.append(T('z_sum_to_var', [FRESH(['x', 'y'], EQ(q, L(x, y)), NE(y, P(2)), REL('plusz', P(0), P(1), y), EQ(x, y))], 'multiset'))
+    return t
+
+
+def fd_panic_programs():
+    """FD programs whose constrained variables are hidden from the query variable / aliased (verify_all_bound paths)."""
+    t = []
+    t.append(T('fdp_alias_hidden', [FRESH(['x', 'y', 'z'], EQ(q, P(0)), INFDR(L(x, y, z), 0, 2), EQ(x, y), REL('ltefd', x, z))], 'multiset', 40))
+    t.append(T('fdp_alias_hidden_rev', [FRESH(['x', 'y', 'z'], EQ(q, P(0)), INFDR(L(x, y, z), 0, 2), EQ(y, x), REL('diseqfd', x, z))], 'multiset', 40))
+    t.append(T('fdp_plus_hidden', [FRESH(['x', 'y', 'z'], EQ(q, z), INFDR(L(x, y, z), 0, 2), EQ(x, y), REL('plusfd', x, y, z))], 'multiset', 40))
+    return t
+
+
+def permutations_family(max_perms=6):
+    """C04: every permutation of a conjunction / of the clauses of a disjunction is compared with the
+    reference answers of the BASE order (one reference for the whole orbit)."""
+    t = []
+    bases = [
+        ('pa', ['x', 'y'], [EQ(q, L(x, y)), OP('conde', EQ(x, P(0)), EQ(x, P(1))), NE(x, y), OP('conde', EQ(y, P(0)), EQ(y, P(2)))]),
+        ('pb', ['x', 'y'], [EQ(q, L(x, y)), NE(L(x, y), L(P(0), P(1))), EQ(x, P(2)), NE(y, P(0))]),
+        ('pc', ['x', 'y'], [EQ(q, L(x, y)), INFDR(L(x, y), -1, 2), REL('plusfd', x, y, P(0)), REL('ltefd', x, y)]),
+        ('pd', ['x', 'y'], [EQ(q, L(x, y)), INFD(x, [0, 1, 3]), INFDR(y, 0, 3), REL('diseqfd', x, y), EQ(y, P(0))]),
+        ('pe', ['x', 'y'], [EQ(q, L(x, y)), REL('member', x, L(P(0), P(1))), REL('member', y, L(P(1), P(2))), NE(x, y)]),
+    ]
+    for name, vs, goals in bases:
+        base = [FRESH(vs, *goals)]
+        perms = list(itertools.permutations(range(len(goals))))
+        step = max(1, len(perms) // max_perms)
+        for i, pm in enumerate(perms[::step][:max_perms]):
+            t.append(T('perm_%s_c%d' % (name, i), [FRESH(vs, *[goals[j] for j in pm])], 'multiset', 40, ref_prog=base))
+    dis = [
+        ('da', [[EQ(q, P(0))], [EQ(q, P(1)), NE(q, P(0))], [FRESH(['x'], EQ(q, L(x)), NE(x, P(2)))]]),
+        ('db', [[REL('member', q, L(P(0), P(1)))], [EQ(q, P(2))], [FALSE], [EQ(q, P(0))]]),
+    ]
+    for name, cls in dis:
+        base = [('conde', cls)]
+        perms = list(itertools.permutations(range(len(cls))))
+        step = max(1, len(perms) // max_perms)
+        for i, pm in enumerate(perms[::step][:max_perms]):
+            t.append(T('perm_%s_d%d' % (name, i), [('conde', [cls[j] for j in pm])], 'multiset', 40, ref_prog=base))
+    return t
+
+
+def fairness():
+    """C07 (bounded): answers of a finite branch must show up among the first answers although other
+    branches are infinite producers (`always`) or silent divergers (`never`)."""
+    t = []
+    t.append(T('fair_never_first', [OP('conde', REL('never'), EQ(q, P(0)))], 'covers', 1))
+    t.append(T('fair_never_last', [OP('conde', EQ(q, P(0)), REL('never'))], 'covers', 1))
+    t.append(T('fair_never_mid3', [OP('conde', EQ(q, P(0)), REL('never'), EQ(q, P(1)))], 'covers', 2))
+    t.append(T('fair_two_always', [OP('conde', [REL('always'), EQ(q, P(0))], [REL('always'), EQ(q, P(1))])], 'covers', 6))
+    t.append(T('fair_always_and_finite', [OP('conde', [REL('always'), EQ(q, P(0))], EQ(q, P(1)), [REL('never'), EQ(q, P(2))])], 'covers', 6))
+    t.append(T('fair_loop_branch', [OP('conde', [('loop', [EQ(q, P(0))])], EQ(q, P(1)))], 'covers', 6))
+    t.append(T('fair_nested', [OP('conde', OP('conde', REL('never'), [REL('always'), EQ(q, P(0))]), EQ(q, P(1)))], 'covers', 6))
+    return t
